@@ -276,7 +276,7 @@ def _run_structural(ctx):
         for v in fm.values:
             printers.extend(x[0] for x in res.callable_values(v, None, {}))
     choice = None
-    for d in st.node.decorator_list:
+    for d in ctx.index.expanded_decorators(st):
         if isinstance(d, ast.Call) and any(isinstance(a, ast.Constant) and a.value == "--format" for a in d.args):
             for kw in d.keywords:
                 if kw.arg == "type" and isinstance(kw.value, ast.Call) and kw.value.args and isinstance(kw.value.args[0], (ast.List, ast.Tuple)):
